@@ -154,6 +154,24 @@ theorem join_after_all_workers {nw : Nat} {conc : Bool} {s : St} (h : Reachable 
     (r : Option Nat) (hj : s.joined = some r) : ∀ w, w < s.nw → (s.main w).gone = true :=
   fun _ hw => gone_of_allGone (h.inv.j.joined r hj).2.1 hw
 
+/-- ... over both paths of `join`: the closure that joins the threads runs on the blocking pool, or -- when the
+pool refuses it because its thread limit is reached -- on a fresh thread; `join` never returns without one of
+them having joined every worker. -/
+theorem join_both_paths_wait_for_workers {nw : Nat} {conc : Bool} {s : St} (h : Reachable nw conc s)
+    (r : Option Nat) (hj : s.joined = some r) :
+    (s.joiner = some true ∨ s.joiner = some false) ∧ ∀ w, w < s.nw → (s.main w).gone = true := by
+  refine ⟨?_, join_after_all_workers h r hj⟩
+  have := h.inv.n r hj
+  cases hn : s.joiner with
+  | none => simp [hn] at this
+  | some b => cases b <;> simp
+
+/-- A saturated pool cannot block `join`: once the sender is dropped the fallback thread can always take the
+joiner closure. -/
+theorem join_fallback_always_possible (s : St) (hsend : s.sender = false) (hn : s.joiner = none) :
+    (step? s .joinFallbackThread).isSome = true := by
+  simp [step?, joinHand?, hsend, hn]
+
 /-- If the dispatcher is joined first, the receiver observes cancellation instead of hanging: once `join`
 has returned, no receiver of a task sent with `dispatch` is pending (the sender half was dropped together
 with the task object, or the result was sent). -/
@@ -295,6 +313,8 @@ theorem no_dispatch_after_join {s s' : St} {e : Event} (hsend : s.sender = false
   | die w p => obtain ⟨_, _, rfl⟩ := die?_some hs; exact ⟨rfl, hsend⟩
   | reap w => obtain ⟨p, _, _, rfl⟩ := reap?_some hs; exact ⟨rfl, by simpa using hsend⟩
   | joinStart => obtain ⟨h1, _⟩ := joinStart?_some hs; rw [hsend] at h1; cases h1
+  | joinPool => obtain ⟨_, _, rfl⟩ := joinHand?_some hs; exact ⟨rfl, hsend⟩
+  | joinFallbackThread => obtain ⟨_, _, rfl⟩ := joinHand?_some hs; exact ⟨rfl, hsend⟩
   | exitLoop w => obtain ⟨_, _, _, _, rfl⟩ := exitLoop?_some hs; exact ⟨rfl, hsend⟩
   | teardown w => obtain ⟨_, _, rfl⟩ := teardown?_some hs; exact ⟨rfl, hsend⟩
   | joinReturn => obtain ⟨_, _, _, rfl⟩ := joinReturn?_some hs; exact ⟨rfl, hsend⟩
@@ -355,7 +375,7 @@ theorem accept_certifies_schedule {nw : Nat} {conc : Bool} {h : List Obs} (ha : 
 workers; join after both ended -/
 def exA : List Event :=
   [.dispatch 0 1 ⟨1, .ok 7⟩, .dispatch 1 2 ⟨0, .panic⟩, .recv 0 1, .recv 1 2, .poll 0 1, .poll 1 2, .poll 1 2,
-   .poll 0 1, .poll 0 1, .joinStart, .exitLoop 0, .exitLoop 1, .teardown 0, .teardown 1, .joinReturn]
+   .poll 0 1, .poll 0 1, .joinStart, .joinPool, .exitLoop 0, .exitLoop 1, .teardown 0, .teardown 1, .joinReturn]
 
 example : (run? (init 2 true) exA).map (fun s => (s.joined, s.chan 1, s.chan 2)) =
     some (some none, .value 7, .cancelled) := by decide
@@ -366,7 +386,7 @@ example : (run? (init 2 true) exA).map (fun s => (s.started 1, s.startedOn 1, s.
 the queue until `join` frees the channel; a later dispatch (task 3) is refused; `join` resumes the panic -/
 def exB : List Event :=
   [.dispatch 0 1 ⟨0, .never⟩, .dispatch 0 2 ⟨0, .ok 5⟩, .recv 0 1, .poll 0 1, .die 0 9, .reap 0,
-   .dispatch 0 3 ⟨0, .ok 1⟩, .joinStart, .joinReturn]
+   .dispatch 0 3 ⟨0, .ok 1⟩, .joinStart, .joinFallbackThread, .joinReturn]
 
 example : (run? (init 1 false) exB).map (fun s => (s.joined, s.chan 1, s.chan 2)) =
     some (some (some 9), .cancelled, .cancelled) := by decide
@@ -377,7 +397,7 @@ example : (run? (init 1 false) exB).map (fun s => (s.started 2, s.accepted, s.re
 worker, `join` returns `Ok` -/
 def exC : List Event :=
   [.dispatch 0 1 ⟨0, .ok 3⟩, .dispatch 1 2 ⟨1, .ok 4⟩, .joinStart, .recv 0 1, .poll 0 1, .poll 0 1, .recv 0 2,
-   .poll 0 2, .poll 0 2, .poll 0 2, .exitLoop 0, .teardown 0, .joinReturn]
+   .poll 0 2, .poll 0 2, .poll 0 2, .joinFallbackThread, .exitLoop 0, .teardown 0, .joinReturn]
 
 example : (run? (init 1 false) exC).map (fun s => (s.joined, s.chan 1, s.chan 2, s.startedOn 2)) =
     some (some none, .value 3, .value 4, [0]) := by decide
@@ -390,10 +410,14 @@ example : run? (init 1 false) [.dispatch 0 1 ⟨0, .ok 3⟩, .dispatch 0 2 ⟨0,
 example : run? (init 2 true) [.dispatch 0 1 ⟨0, .ok 3⟩, .recv 0 1, .recv 1 1] = none := by decide
 
 /-- `join` cannot return while a worker is still running -/
-example : run? (init 1 true) [.joinStart, .joinReturn] = none := by decide
+example : run? (init 1 true) [.joinStart, .joinPool, .joinReturn] = none := by decide
+example : run? (init 1 true) [.joinStart, .joinFallbackThread, .joinReturn] = none := by decide
+
+/-- `join` cannot return before the joiner closure was handed to the pool or to the fallback thread -/
+example : run? (init 1 true) [.joinStart, .exitLoop 0, .teardown 0, .joinReturn] = none := by decide
 
 /-- the trace acceptor on small histories: a clean run is accepted, a task started twice is not -/
-example : accepts 2 true [.intent 1 ⟨1, .ok 7⟩ false, .acc 1, .start 0 1, .fin 1, .got 1 7, .joinCall,
+example : accepts 2 true [.intent 1 ⟨1, .ok 7⟩ false, .acc 1, .start 0 1, .fin 1, .got 1 7, .joinCall false,
     .joinRet none, .alive 0] = true := by decide
 example : accepts 2 true [.intent 1 ⟨1, .ok 7⟩ false, .acc 1, .start 0 1, .start 1 1] = false := by decide
 example : accepts 2 false [.intent 1 ⟨0, .ok 7⟩ false, .intent 2 ⟨0, .ok 8⟩ false, .acc 1, .acc 2, .start 0 1,
